@@ -12,15 +12,29 @@ static int            SN_calls;
 static ares_server_t *SN_server;
 static unsigned int   SN_flags;
 static const ares_dns_record_t *SN_rec;
+static int                      SN_done; /* the probe request has completed */
+static ares_callback_dnsrec     SN_cb;   /* pending probe: its handler and argument as the library installed them */
+static void                    *SN_arg;
 ares_status_t ares_send_nolock(ares_channel_t *channel, ares_server_t *server, ares_send_flags_t flags,
                                const ares_dns_record_t *dnsrec, ares_callback_dnsrec callback, void *arg, unsigned short *qid)
 {
-  (void)channel; (void)arg; (void)qid;
+  (void)channel; (void)qid;
   VP_ASSERT(callback != NULL, "a probe has its own completion handler");
   SN_calls++;
   SN_server = server;
   SN_flags  = (unsigned int)flags;
   SN_rec    = dnsrec;
+  /* contract G-send (checked on the real ares_send_nolock in send_early.c): the request either completes during the
+   * call - the handler is invoked exactly once, e.g. allocation failure, no usable server, connect refused - or stays
+   * pending and completes exactly once later */
+  if (vp_bool()) {
+    ares_status_t st = (ares_status_t)vp_range(1, 24);
+    SN_done = 1;
+    callback(arg, st, 0, NULL);
+    return st;
+  }
+  SN_cb  = callback;
+  SN_arg = arg;
   return ARES_SUCCESS;
 }
 
@@ -93,7 +107,25 @@ void harness(void)
       VP_ASSERT(SN_server != NULL && SN_server != srv[used], "never probes the server just used");
       VP_ASSERT(SN_server->consec_failures > 0, "only a failed server is probed");
       VP_ASSERT(ares_timedout(&M_now, &SN_server->next_retry_time), "only after its retry delay has passed");
-      VP_ASSERT(SN_server->probe_pending == ARES_TRUE, "the probed server is marked probe-pending");
+      /* the pending probe completes later (answer, timeout, cancel, connection error ...): any status */
+      if (!SN_done && vp_bool()) {
+        SN_done = 1;
+        SN_cb(SN_arg, (ares_status_t)vp_range(0, 24), 0, NULL);
+        VP_WITNESS("probe completed later");
+      }
+#ifdef KFONLY_probe_sync_fail_pending
+      VP_ASSUME(SN_done);
+#endif
+      if (SN_done) {
+#ifndef KF_probe_sync_fail_pending
+        VP_ASSERT(SN_server->probe_pending == ARES_FALSE,
+                  "FINDING probe_sync_fail_pending: a probe that has ended - at whatever point, a failure inside the send call "
+                  "included - releases its server for the next probe");
+#endif
+        VP_WITNESS("probe ended");
+      } else {
+        VP_ASSERT(SN_server->probe_pending == ARES_TRUE, "the probed server is marked probe-pending while its probe is outstanding");
+      }
       VP_ASSERT((SN_flags & ARES_SEND_FLAG_NOCACHE) && (SN_flags & ARES_SEND_FLAG_NORETRY), "a probe bypasses the cache and never retries");
       VP_ASSERT(SN_rec == q->query, "the probe is a copy of the user's question");
       VP_WITNESS("probe sent");
